@@ -418,7 +418,18 @@ func c45Msg(op Op, tag uint16, dotu bool, msize uint32) *Msg {
 	case Twalk:
 		m.Newfid = uint32(op.a(fFid2))
 		for i := 0; i < int(op.a(fArg)); i++ {
-			m.Wname = append(m.Wname, fmt.Sprintf("e%d", i))
+			// a name is any string: now and then an empty one, '.', one with a slash (what they mean is the
+			// implementation's business; the framework counts elements and qids)
+			switch (int(tag) + 3*i) % 11 {
+			case 0:
+				m.Wname = append(m.Wname, "")
+			case 1:
+				m.Wname = append(m.Wname, ".")
+			case 2:
+				m.Wname = append(m.Wname, "a/b")
+			default:
+				m.Wname = append(m.Wname, fmt.Sprintf("e%d", i))
+			}
 		}
 	case Topen:
 		m.Mode = uint8(op.a(fArg))
